@@ -115,8 +115,8 @@ func (r *Reg) plan(a *attemptState, b *Blob) Plan {
 
 // planAttempt fixes every chunk list of the attempt up front. Exclusion of SlugPlan: the client's
 // only completeness test is sum(received) == sum(sizes) over the whole pull, so a list with excess
-// bytes (overlap) cancels a list with missing bytes (gap, cut list, failed chunk-list request) of
-// another layer; with the finding listed, overlap lists are served honestly in such attempts.
+// bytes (overlap) cancels a list with missing bytes (gap, cut list, failed chunk-list request, list
+// withheld and then cut by a cancellation) of this or another layer; with the finding listed, overlap lists are served honestly in such attempts.
 func (r *Reg) planAttempt(a *attemptState) {
 	excess, deficit := false, false
 	for pos, b := range a.version.Layers {
@@ -131,7 +131,9 @@ func (r *Reg) planAttempt(a *attemptState) {
 		if n > b.Size() {
 			excess = true
 		}
-		if n < b.Size() || r.fault(a, "sums", pos, 0) != nil {
+		// a withheld list (gateAt) counts as a possible deficit: a cancellation or read timeout at
+		// the gate cuts the list short, which the client notes without failing the pull
+		if n < b.Size() || r.fault(a, "sums", pos, 0) != nil || s.gateAt >= 0 {
 			deficit = true
 		}
 	}
